@@ -341,20 +341,29 @@ def default_scalar(
         name,
         serialize=_transparent,
         parse=_transparent,
-        parse_literal=lambda node, _: _untyped_literal(node),
+        parse_literal=_untyped_literal,
         description=description,
         nodes=nodes,
     )
 
 
-def _untyped_literal(node: _ast.Value) -> Any:
+def _untyped_literal(
+    node: _ast.Value, variables: Optional[Mapping[str, Any]] = None
+) -> Any:
     # Transparent conversion of a literal: scalar literals keep their
     # ``value`` (source text for numbers), enum literals their name, list and
-    # object literals become lists and dicts.
+    # object literals become lists and dicts. A variable inside a structured
+    # literal stands for its value; where no values are known (validation) or
+    # none was provided it is ``None``: any value is acceptable here.
+    if isinstance(node, _ast.Variable):
+        return (variables or {}).get(node.name.value)
     if isinstance(node, _ast.NullValue):
         return None
     if isinstance(node, _ast.ListValue):
-        return [_untyped_literal(v) for v in node.values]
+        return [_untyped_literal(v, variables) for v in node.values]
     if isinstance(node, _ast.ObjectValue):
-        return {f.name.value: _untyped_literal(f.value) for f in node.fields}
+        return {
+            f.name.value: _untyped_literal(f.value, variables)
+            for f in node.fields
+        }
     return node.value  # type: ignore
